@@ -298,3 +298,10 @@ package engine
 //@   ensures [C10] imports-guard: !imsOK(m.Imports, file, dmap(d)) ==> !ok
 //@   ensures d1 != nil
 //@   assigns nothing
+
+// Every token.Pos field of a pattern is compiled to a PosMatcher (validity comparison), in
+// patterns with and without metavariables in scope alike.
+//@ func (c *matcherCompiler) compilePosMatcher(v) (m)
+//@   requires typing: rvIface(v).typ == dyn("go/token.Pos")
+//@   ensures [C01,C02] positions-always-compared-by-validity: m == boxed(mk("github.com/uber-go/gopatch/internal/engine.PosMatcher", c.fset, rvIface(v).val))
+//@   assigns nothing
